@@ -5,6 +5,7 @@
 //!   qxcheck --worker ...                   (internal)
 
 mod ctx;
+mod family;
 mod gen;
 mod monitors;
 mod obs;
